@@ -3435,6 +3435,10 @@ def commit_tree_changes(
         assert isinstance(sha_obj, Tree)
         tree_obj = sha_obj
     nested_changes: dict[bytes, list[tuple[bytes, int | None, ObjectID | None]]] = {}
+    # Entries of this tree are removed first and (re)written last, with the
+    # changes below them in between: a change list may replace a directory
+    # by a file of the same name (deleting its children) or the reverse.
+    direct_sets: list[tuple[bytes, int, ObjectID]] = []
     for path, new_mode, new_sha in changes:
         try:
             (dirname, subpath) = path.split(b"/", 1)
@@ -3443,7 +3447,7 @@ def commit_tree_changes(
                 del tree_obj[path]
             else:
                 assert new_mode is not None
-                tree_obj[path] = (new_mode, new_sha)
+                direct_sets.append((path, new_mode, new_sha))
         else:
             nested_changes.setdefault(dirname, []).append((subpath, new_mode, new_sha))
     for name, subchanges in nested_changes.items():
@@ -3456,9 +3460,12 @@ def commit_tree_changes(
         subtree = object_store[subtree_id]
         assert isinstance(subtree, Tree)
         if len(subtree) == 0:
-            del tree_obj[name]
+            if name in tree_obj:
+                del tree_obj[name]
         else:
             tree_obj[name] = (stat.S_IFDIR, subtree.id)
+    for path, set_mode, set_sha in direct_sets:
+        tree_obj[path] = (set_mode, set_sha)
     object_store.add_object(tree_obj)
     return tree_obj.id
 
